@@ -64,7 +64,12 @@ func (g *Gen) fixText(s *State, name string, f *FieldSpec) *SVal {
 		if f.Left {
 			s.pc = append(s.pc, Or(Eq(v.S.Len, CI(0)), Not(Eq(v.S.At(CI(0)), pad))))
 		} else {
-			s.pc = append(s.pc, Or(Eq(v.S.Len, CI(0)), Not(Eq(v.S.At(Sub(v.S.Len, CI(1))), pad))))
+			// last byte is not the pad: one implication per possible length (constant indices only)
+			var cs []*Term
+			for j := 0; j < f.Width; j++ {
+				cs = append(cs, Implies(Eq(v.S.Len, CI(int64(j+1))), Not(Eq(v.S.At(CI(int64(j))), pad))))
+			}
+			s.pc = append(s.pc, And(cs...))
 		}
 	}
 	return v
